@@ -28,6 +28,22 @@ def labels(cx):
     return [(sh(c), a) for k, c, a in cx if k == "if"]
 
 
+def check_last(c, prog, rule):
+    """ValueBlindingFactor::last hands inputs as the positive and outputs as the negative set, triple by triple, unfiltered"""
+    L = Fn(prog, VBF + "::last")
+    r = [sh(s[1]) for cx, s in L.flat if s[0] == "ret"]
+    CL0 = "closure:%s::last::{closure#0}{}" % VBF
+    CL1 = "closure:%s::last::{closure#1}{}" % VBF
+    want = ("%s::ValueBlindingFactor{secp256k1_zkp::compute_adaptive_blinding_factor(arg1, arg2, arg3.0, std::iter::Iterator::collect(std::iter::Iterator::map(arg4, %s)), "
+            "std::iter::Iterator::collect(std::iter::Iterator::map(arg5, %s)))}" % (VBF, CL0, CL1))
+    c.inst(rule, "last(): inputs form the first (positive) set, outputs the second", r == [want], "returns %s" % r, L.f.where(), L.f.path)
+    for i in (0, 1):
+        CF = Fn(prog, "%s::last::{closure#%d}" % (VBF, i))
+        r = [sh(s[1]) for cx, s in CF.flat if s[0] == "ret"]
+        c.inst(rule, "triple (value, abf, vbf) -> CommitmentSecrets{value, value_blinding_factor: vbf, generator_blinding_factor: abf} (closure %d)" % i,
+               r == ["secp256k1_zkp::CommitmentSecrets::CommitmentSecrets{arg2.0, arg2.2.0, confidential::AssetBlindingFactor::into_inner(arg2.1)}"], "returns %s" % r, CF.f.where(), CF.f.path)
+
+
 def run(c, prog, ctx):
     c.explanation = (
         "Static decision of the bookkeeping clauses of C09. (R1) blind_non_last collects (amount, abf, vbf) of exactly the outputs it blinds "
@@ -152,18 +168,7 @@ def run(c, prog, ctx):
                 and [sh(a) for a in nested[0][1][2]] == ["arg1", "arg2", "arg3", "arg4"])
     c.inst("R3.nested-non-last", "several outputs: hide last output's blinder_index, blind the rest as non-last, restore it, and drop own inputs (already in the published scalar)", good, det, BL.f.where(), BL.f.path)
     # ------------------------------------------------------------- R4 algebra helpers
-    L = Fn(prog, VBF + "::last")
-    r = [sh(s[1]) for cx, s in L.flat if s[0] == "ret"]
-    CL0 = "closure:%s::last::{closure#0}{}" % VBF
-    CL1 = "closure:%s::last::{closure#1}{}" % VBF
-    want = ("%s::ValueBlindingFactor{secp256k1_zkp::compute_adaptive_blinding_factor(arg1, arg2, arg3.0, std::iter::Iterator::collect(std::iter::Iterator::map(arg4, %s)), "
-            "std::iter::Iterator::collect(std::iter::Iterator::map(arg5, %s)))}" % (VBF, CL0, CL1))
-    c.inst("R4.last", "last(): inputs form the first (positive) set, outputs the second", r == [want], "returns %s" % r, L.f.where(), L.f.path)
-    for i in (0, 1):
-        CF = Fn(prog, "%s::last::{closure#%d}" % (VBF, i))
-        r = [sh(s[1]) for cx, s in CF.flat if s[0] == "ret"]
-        c.inst("R4.last", "triple (value, abf, vbf) -> CommitmentSecrets{value, value_blinding_factor: vbf, generator_blinding_factor: abf} (closure %d)" % i,
-               r == ["secp256k1_zkp::CommitmentSecrets::CommitmentSecrets{arg2.0, arg2.2.0, confidential::AssetBlindingFactor::into_inner(arg2.1)}"], "returns %s" % r, CF.f.where(), CF.f.path)
+    check_last(c, prog, "R4.last")
     A = Fn(prog, "<%s as std::ops::AddAssign>::add_assign" % VBF)
     ZERO = "repeat(('const', 'u8', 0), '32')"
     EQ = "std::cmp::impls::<impl std::cmp::PartialEq<&B> for &A>::eq(%s.0, %s)"
